@@ -104,10 +104,10 @@ LEXEMES = [
     'C', 'H', 'O', 'N', 'Pt', 'c', '$', '&', 'X', 'M', 'Xx',
     '{', '}', '(', ')', ',', '!', '||', '&&', '+', '-', '.', ':', '?', '*', '+.',
     '-.', ':.', '=', '>', '<', '>=', '<=', '=>', '0', '1', '2', '3', '9',
-    'c1', 'zz9', 'é', '٣',
+    'c1', 'zz9', 'é', '٣', '\r', '\x0c', '\x0b', '\xa0', '\u2003',
 ]
 SHORT_ALPHABET = ['a', 'C', '1', '_', ' ', '\n', '\t', '{', '}', '(', ')', ',',
-                  '!', '.', 'é']
+                  '!', '.', 'é', '\r']
 KEYWORDS = ['fragment', 'rule', 'reactant', 'labeled', 'single bond to',
             'ringbond', 'connected to', 'in ring of size', 'has', 'in',
             'radical electrons', 'ring', 'with', 'bond', 'stereo double bond',
